@@ -74,6 +74,8 @@ def run(chk, tier):
              "split in rename / rename_all; no skip on a data member; no with/flatten/tag/untagged/deny_unknown_fields")
     chk.rule("R8.4", "same information as SCALE: the serialised data members are exactly the ADT's non-phantom fields")
     sf = S.Src()
+    prog = mir.Program(facts.load_mir(facts.CONFIGS["all"]))
+    hand = hand_written(prog)
     for feats in configs_for(tier):
         cfg = facts.cfg_name(feats)
         fs = set(feats)
@@ -86,9 +88,8 @@ def run(chk, tier):
             rm = S.effective_metas(reg[1]["attrs"], fs) or []
             reg_de = any(d.split("::")[-1] == "Deserialize" for d in S.derives(rm))
         for short in sorted(FILES):
-            check_type(chk, sf, short, fs, cfg, reg_de)
+            check_type(chk, sf, short, fs, cfg, reg_de, hand)
     # MIR side (one serde+decode configuration is enough for provenance; predicate bodies in default)
-    prog = mir.Program(facts.load_mir(facts.CONFIGS["all"]))
     provenance(chk, prog, prog.config)
     predicates(chk, prog, prog.config)
     if tier == "thorough":
@@ -127,7 +128,69 @@ def get_nv(nested, key):
     return val, split
 
 
-def check_type(chk, sf, short, feats, cfg, reg_de=True):
+def hand_written(prog):
+    """{short: {"ser": verdict, "de": verdict}} for the transparent model types whose Serialize / Deserialize is written by hand (verdict None: derived
+    or absent).  A hand-written writer is the transparent one when its body is `Serialize::serialize(&self.<the data member>, serializer)` and nothing
+    else; a hand-written reader when it is `<member type>::deserialize(deserializer)` with Ok(v) -> the value whose data member is v (the other members
+    phantom) and Err(e) -> Err(e).  Decided by interpreting the bodies; anything else is reported as not analysable."""
+    from ..lib import symrun, absint
+    S_ = absint.Sym
+    SER = "serde_core::ser::Serialize"
+    DES = "serde_core::de::Deserialize"
+    out = {}
+    for short, member in sorted(TRANSPARENT.items()):
+        path = c06.MODEL.get(short)
+        a = prog.adts.get(path) if path else None
+        if a is None or a["kind"] != "struct":
+            continue
+        fields = a["variants"][0]["fields"]
+        mty = [prog.ty_s(f["ty"]) for f in fields if f["name"] == member]
+        others_phantom = all(prog.ty_s(f["ty"]).startswith("core::marker::PhantomData") for f in fields if f["name"] != member)
+        res = {"ser": None, "de": None}
+        for kind, tr, meth in (("ser", SER, "serialize"), ("de", DES, "deserialize")):
+            imps = prog.impl_for(tr, lambda t: t["k"] == "adt" and t["d"] == path)
+            hand = [i for i in imps if not i["automatically_derived"]]
+            if not hand:
+                continue
+            res[kind] = "not analysable"
+            fn = [it for it in hand[0]["items"] if it["name"] == meth and it.get("path") in prog._bodies_raw]
+            if len(imps) != 1 or not fn or len(mty) != 1 or not others_phantom:
+                continue
+
+            class R(symrun.Run):
+                def handler(self, name, args, t):
+                    decl = mir.strip_generics(t.get("callee") or "")
+                    if decl == SER + "::serialize" and len(args) == 2:
+                        self.log.append(("serialize", args[0], args[1]))
+                        return S_("OUT")
+                    if decl == DES + "::deserialize" and len(args) == 1:
+                        gs = [g for g in (t.get("gargs") or []) if isinstance(g, int)]
+                        self.log.append(("deserialize", args[0], prog.ty_s(gs[0]) if gs else "?"))
+                        return absint.ok(S_("V")) if self.scen["ok"] else absint.err(S_("E"))
+                    return symrun.Run.handler(self, name, args, t)
+            try:
+                if kind == "ser":
+                    r = R(prog, {})
+                    v = r.run(fn[0]["path"], [symrun.struct(prog, path, "self"), S_("serializer")])
+                    good = v == S_("OUT") and r.log == [("serialize", S_("self." + member), S_("serializer"))]
+                    res[kind] = True if good else "writes %s after %s" % (symrun.show(v), [(x[0], symrun.show(x[1])) for x in r.log])
+                else:
+                    r1 = R(prog, {"ok": True})
+                    v1 = r1.run(fn[0]["path"], [S_("d")])
+                    r0 = R(prog, {"ok": False})
+                    v0 = r0.run(fn[0]["path"], [S_("d")])
+                    val = v1[2][0] if isinstance(v1, tuple) and v1[:2] == ("variant", "Ok") else None
+                    good = val is not None and symrun.is_struct(val, path) and symrun.field(val, member) == S_("V") \
+                        and r1.log == [("deserialize", S_("d"), mty[0])] and r0.log == r1.log \
+                        and isinstance(v0, tuple) and v0[:2] == ("variant", "Err") and v0[2][0] == S_("E")
+                    res[kind] = True if good else "reads %s: Ok -> %s, Err -> %s" % ([x[2] for x in r1.log], symrun.show(v1), symrun.show(v0))
+            except absint.Unrecognised as e:
+                res[kind] = "cannot interpret: %s" % e
+        out[short] = res
+    return out
+
+
+def check_type(chk, sf, short, feats, cfg, reg_de=True, hand=None):
     found = find_item(sf, short)
     if found is None:
         chk.anchor_missing("source item " + short)
@@ -140,7 +203,23 @@ def check_type(chk, sf, short, feats, cfg, reg_de=True):
     der = S.derives(metas)
     has_ser = any(d.split("::")[-1] == "Serialize" for d in der)
     has_de = any(d.split("::")[-1] == "Deserialize" for d in der)
-    if not has_ser:
+    hs = (hand or {}).get(short) or {"ser": None, "de": None}
+    if short in TRANSPARENT and (hs["ser"] is not None or hs["de"] is not None) and "serde" in feats:
+        # a transparent type whose writer and / or reader is written by hand: the hand-written side is judged on its body (hand_written), the
+        # derived side -- if any -- on the attributes as usual
+        ser_t = hs["ser"] is True or (hs["ser"] is None and has_ser and any(m["path"] == "transparent" for m in serde_nested(metas)))
+        de_t = hs["de"] is True or (hs["de"] is None and has_de and any(m["path"] == "transparent" for m in serde_nested(metas)))
+        both = ser_t and (de_t or (hs["de"] is None and not has_de))
+        kind_ = "VIOLATION" if both or all(v is None or v is True or not str(v).startswith(("cannot", "not analysable")) for v in hs.values()) else "UNRECOGNISED"
+        chk.expect(both, "R8.1", "type:" + short, where, "transparent over `%s`: writer %s, reader %s" % (
+            TRANSPARENT[short], "hand-written, " + str(hs["ser"]) if hs["ser"] is not None else "derived, transparent=%s" % ser_t,
+            "hand-written, " + str(hs["de"]) if hs["de"] is not None else ("derived, transparent=%s" % de_t if has_de else "absent")), cfg, kind=kind_)
+        if hs["ser"] is not None and hs["de"] is not None:
+            return      # no derived side left: the serde attributes say nothing any more
+        if not (has_ser or has_de):
+            return
+        # fall through: the attribute rules below judge the derived side
+    elif not has_ser:
         chk.fail("R8.3", "derive:%s:Serialize" % short, where, "%s does not derive Serialize under %s" % (short, cfg), cfg)
         return
     cont = serde_nested(metas)
@@ -171,7 +250,8 @@ def check_type(chk, sf, short, feats, cfg, reg_de=True):
             data.append((fld, fn, fwhere))
         if short in TRANSPARENT:
             ok = transparent and len(data) == 1 and data[0][0]["ident"] == TRANSPARENT[short]
-            chk.expect(ok, "R8.1", "type:" + short, where, "transparent: %s over %s" % (transparent, [d[0]["ident"] for d in data]), cfg)
+            chk.expect(ok, "R8.1", "type:" + short + (":derived-side" if hs["ser"] is not None or hs["de"] is not None else ""), where,
+                       "transparent: %s over %s" % (transparent, [d[0]["ident"] for d in data]), cfg)
             return
         if transparent:
             chk.fail("R8.1", "type:" + short, where, "%s is serialised transparently but documented as an object" % short, cfg)
@@ -259,11 +339,14 @@ def provenance(chk, prog, cfg):
         def derived(imp):
             e = (imp["expn"] or [{}])[0]
             return imp["automatically_derived"] and e.get("kind") == "Derive" and e.get("crate") == "serde_derive"
-        ok = len(si) == 1 and derived(si[0]) and (not di or (len(di) == 1 and derived(di[0])))
+        hs = hand_written(prog).get(short) or {}
+        okser = len(si) == 1 and (derived(si[0]) or hs.get("ser") is True)
+        okde = not di or (len(di) == 1 and (derived(di[0]) or hs.get("de") is True))
+        ok = okser and okde
         need_de = "decode" in cfg.split("+") or short not in ("PortableRegistry", "PortableType")
         if need_de and not di:
             ok = False
-        chk.expect(ok, "R8.3", "derived:%s" % short, si[0]["loc"], kind="UNRECOGNISED" if (si and not all(derived(i) for i in si + di)) else "VIOLATION", detail="Serialize: %s; Deserialize: %s (a hand-written impl is not analysed: reader = writer cannot be decided from the attributes)" % (
+        chk.expect(ok, "R8.3", "derived:%s" % short, si[0]["loc"], kind="UNRECOGNISED" if (si and not all(derived(i) for i in si + di)) else "VIOLATION", detail="Serialize: %s; Deserialize: %s (a hand-written impl is analysed only for the transparent types, on its body: see R8.1)" % (
             ["derived" if derived(i) else "HAND-WRITTEN" for i in si], ["derived" if derived(i) else "HAND-WRITTEN" for i in di] or "absent"), config=cfg)
 
 
